@@ -158,3 +158,14 @@ HARNESS(h_c04_random) {
     OD(c->get_growth_rate());
     OD(c->get_division_volume());
 }
+
+// C12: get_cell_longest_axis. The 3x3 symmetric eigen-solver (gte::SymmetricEigensolver3x3, iterative) is environment: irsym replaces
+// mat33::eigen_decomposition by a stub that records the matrix it is given and returns arbitrary (symbolic) eigen pairs.
+HARNESS(h_c12_axis) {
+    auto c = build_cell(io);
+    c->initialize_cell_properties(false);
+    const vec3 axis = c->get_cell_longest_axis();
+    OV(axis);
+    const vec3 ctr = c->compute_centroid();      // the reference point the second moments are taken about (its own law is a C12 obligation)
+    OV(ctr);
+}
